@@ -5,7 +5,7 @@
 set -u
 P=$1; K=$2; DEST=$3; shift 3
 export GOPROXY=off GOSUMDB=off GOTOOLCHAIN=local GOFLAGS=
-SRC=/tmp/mut/$P/$K
+SRC=${MUT_ROOT:-/tmp/mut}/$P/$K
 WT=$(mktemp -d /tmp/confirm-XXXX)
 git -C /repo worktree add --detach $WT HEAD >/dev/null 2>&1 || { echo "worktree failed"; exit 2; }
 trap 'git -C /repo worktree remove --force $WT >/dev/null 2>&1; rm -rf $WT' EXIT
